@@ -41,7 +41,7 @@ ASSUMPTIONS = [
     "known finding C15:failed-parse:declared-symbol-survives, probed separately",
 ]
 TIERS = {
-    "quick": {"runs": 6000, "budget_s": 75},
+    "quick": {"runs": 8000, "budget_s": 90},
     "thorough": {"runs": 300000, "budget_s": 900},
 }
 
@@ -165,8 +165,10 @@ def gen_plan(tape, cfg):
             b = pool[tape.draw(len(pool), "pool.b")]
             pool.append([tape.choice(["and", "or", "iff", "implies"], "pool.comb"), a, b])
     enabled = [k for k in FAULT_KINDS if tape.chance(2, 3, "enable." + k)] or ["illtyped_subst"]
-    nops = tape.rint(10, 40, "nops")
-    nfaults = tape.rint(1, 5, "nfaults")
+    # (the custom node type reaches 16 different services: it gets three tickets)
+    enabled += [k for k in enabled if k == "unsupported"] * 2
+    nops = tape.rint(12, 45, "nops")
+    nfaults = tape.rint(2, 6, "nfaults")
     fault_at = sorted({tape.draw(max(1, nops - 2), "fault.at") for _ in range(nfaults)})
     ops = []
     pending_retry = []
@@ -264,6 +266,13 @@ def gen_plan(tape, cfg):
             if o["kind"] in ("illtyped_construct", "illtyped_subst", "unsupported", "redefine_symbol",
                              "undefined_symbol", "bad_hr", "bad_size_measure") and tape.chance(2, 3, "retry?"):
                 pending_retry.append(dict(o, op="both_fault"))
+            if o["kind"] == "unsupported" and o.get("service") in ("simplify", "free_vars", "atoms", "theory", "types", "size",
+                                                                   "serialize", "to_smtlib", "nnf", "cnf", "aig", "prenex",
+                                                                   "is_qf", "logic"):
+                # the same service is used again (both twins), on one or two pool formulas
+                for _ in range(tape.rint(1, 2, "again.n")):
+                    pending_retry.append({"op": "call", "call": o["service"], "i": tape.draw(len(pool), "again.formula"),
+                                          "daggify": True, "measure": o.get("measure", 0) % calls.SIZE_MEASURES})
             if o["kind"] == "unsupported" and o.get("service") in calls.DWF_SERVICES:
                 # later the service is taught about the node type (both twins), then asked again
                 pending_retry.insert(0, dict(o, op="both_fault"))
